@@ -183,6 +183,9 @@ def apply_fn_subs(unit, item, pc, subs_for_fn, fnargs, owner, canary):
     rsx.rule_attrs(item, pc)
     rsx.rule_log(item, pc)
     rsx.rule_refpat(item, pc)
+    if "clospat" in fnargs:
+        ann = {int(sa[0]): "\n".join(ls) for (sk_, sa, ls) in subs_for_fn if sk_ == "closure"}
+        rsx.rule_clospat(item, pc, ann)
     if "ret" in kv:
         rsx.rule_ret(item, pc, kv["ret"][0])
     xbody = "xbody" in fnargs
@@ -192,6 +195,8 @@ def apply_fn_subs(unit, item, pc, subs_for_fn, fnargs, owner, canary):
             rsx.splice_spec(item, pc, text)
         elif sk == "loop":
             rsx.splice_loop(item, pc, int(sargs[0]), text)
+        elif sk == "closure":
+            pass
         elif sk in ("before", "after"):
             rsx.splice_before(item, pc, unq(" ".join(sargs[1:])), int(sargs[0]), text, after=(sk == "after"))
         else:
@@ -301,9 +306,9 @@ def build_unit(name, tpl_path, canary=False):
                 rsx.project_fields(item, pc, set(",".join(kv["fields"]).split(",")))
             for lit in kv.get("drop", []):
                 rsx.drop_text(item, pc, unq(lit), "R-BOUND")
-            for sub in b.subs:
-                if sub[0] == "spec":
-                    pass
+            if kv.get("attr"):
+                note = "opaque type (R-XBODY on a type: Verus does not look inside)" if any("external_body" in a for a in kv["attr"]) else ""
+                pc.insert(src.toks[item.vis_start].s, "".join(f"#[{a}]\n" for a in kv["attr"]), "R-XBODY" if note else "R-SPLICE", note)
             if not pc.audit():
                 raise ExtractError("audit failed")
             unit.emit(pc.render() + "\n\n")
@@ -315,7 +320,7 @@ def build_unit(name, tpl_path, canary=False):
             emit_fn(unit, item, rel, b.args[2:], subs, "", canary)
         elif b.kind in ("impl", "trait"):
             if b.kind == "impl":
-                item = src.find_impl(pos[1][1:-1])
+                item = src.find_impl(pos[1][1:-1], has=kv.get("has", [None])[0])
                 owner = owner_of_impl(item.header_norm())
             else:
                 item = src.find("trait", pos[1])
